@@ -39,6 +39,10 @@ pub struct Spec {
     pub color: Option<String>,
     pub help: bool,
     pub version: bool,
+    /// index of the `--` group in which the input files and the global
+    /// options are written (0 = first, as in every documented example)
+    #[serde(default)]
+    pub root_group: usize,
 }
 
 /// The harness only needs to *add* a define to the options; it does not
@@ -73,15 +77,14 @@ impl Spec {
 
     pub fn render(&self) -> Vec<String> {
         let mut a = vec!["customasm".to_string()];
-        // global options go into the first group, together with the roots
-        let mut first = true;
-        let groups = if self.groups.is_empty() { vec![] } else { self.groups.clone() };
+        let groups = self.groups.clone();
         let ngroups = groups.len().max(1);
+        let at = self.root_group.min(ngroups - 1);
         for gi in 0..ngroups {
             if gi > 0 {
                 a.push("--".to_string());
             }
-            if first {
+            if gi == at {
                 for r in &self.roots {
                     a.push(r.clone());
                 }
@@ -113,7 +116,6 @@ impl Spec {
                 if self.version {
                     a.push("-v".to_string());
                 }
-                first = false;
             }
             if let Some(g) = groups.get(gi) {
                 if let Some(f) = &g.format {
